@@ -144,6 +144,17 @@ def generate(rng, tier):
                 for r in rng.sample(list(single_ranges(L, 2)), 40):
                     if r != (None, None):
                         cases.append("C07 gen %d %s %s" % (L, chunk_tok(body, parts), rtok([r])))
+    # a generator that goes on after its declared length (a stream cut at a quota): the representation is its first L bytes,
+    # a ranged answer is a slice of those and says so in its headers
+    for L in (1, 2, 5):
+        for extra in (1, 4):
+            body = body_of(L + extra, 6)
+            comps = list(compositions(L + extra, False))
+            for parts in rng.sample(comps, min(3, len(comps))):
+                for r in single_ranges(L, 2):
+                    # (an unranged answer of such a generator is what it is: it sends all the generator yields)
+                    if r != (None, None) and rfc_window(L, [r]) is not None:
+                        cases.append("C07 gen %d %s %s" % (L, chunk_tok(body, parts), rtok([r])))
     # range lists of length 2 and JSON responses
     for L in (0, 1, 5, 10):
         body = body_of(L, 9)
@@ -350,7 +361,7 @@ def build(case):
         chunks = [] if t[3] == "none" else [unhx(c) for c in t[3].split("/")]
         ranges = parse_rtok(t[4])
         res = GeneratorResponse(iter(chunks), content_length=declared)
-        return res, b"".join(chunks), ranges
+        return res, b"".join(chunks)[:declared], ranges
     raise ValueError(kind)
 
 
